@@ -283,7 +283,7 @@ class ArrayAttribute(_BaseAttribute):
         self._data = np.full((n_elem, elem_size), self.default_value, dtype= self.type.dtype)
     
     def _check_out_of_bounds(self,key):
-        if key<0 or key>self.n_elem:
+        if key<0 or key>=self.n_elem:
             raise Attribute.OutOfBoundsError(key, self.n_elem)
 
     def __getitem__(self, key):
